@@ -360,6 +360,13 @@ func (c *Ctx) And(a, b *Term) *Term {
 		if a.Op == OpZExt && (b.Val&mask(a.Args[0].W())) == mask(a.Args[0].W()) {
 			return a
 		}
+		// ((x & m2) + k) & m = (x + k) & m for a low-bit mask m = 2^j-1 contained in m2: addition only carries upwards,
+		// so bits of x above the mask cannot influence the masked sum (a masked counter incremented in a loop stays flat)
+		if b.Val&(b.Val+1) == 0 && a.Op == OpAdd && a.Args[1].IsConst() {
+			if in := a.Args[0]; in.Op == OpAnd && in.Args[1].IsConst() && in.Args[1].Val&b.Val == b.Val {
+				return c.And(c.Add(in.Args[0], a.Args[1]), b)
+			}
+		}
 		// (x ^ y) & m = (x & m) ^ (y & m): push constant masks to the leaves so that masking commutes with xor
 		if a.Op == OpXor {
 			return c.Xor(c.And(a.Args[0], b), c.And(a.Args[1], b))
